@@ -413,6 +413,7 @@ def hist_body(ctx, c):
             if pool != "temp":
                 raise W.WorldError("could not reach the temp state: %s" % pool)
             token0 = key0 = None
+            temp0 = (conn, conn.session_key_bytes, conn.token)
         else:
             ch = w.connect_client()
             token0, key0 = ch.conn.token, ch.conn.session_key_bytes
@@ -463,6 +464,12 @@ def hist_body(ctx, c):
                 dst = w.server_addr if a["target"] == "server" else ch.laddr
                 w.net.push(w.clock.t + 0.001, dst, src, d)
             ctx.label("%s/%s" % (a["cls"] + ("-" + facts["genuine_src"] if "genuine_src" in facts else ""), out))
+            if c["state"] == "temp":
+                # through the real loop: the keyed half-open connection may expire, but it must not be replaced or re-keyed
+                w.step(0.02)
+                cur = w.ctxt.temp_connections.get(ch.laddr)
+                if cur is not None and (cur is not temp0[0] or cur.session_key_bytes != temp0[1] or cur.token != temp0[2]):
+                    ctx.violation("temp-connection-replaced", "attack %r replaced / re-keyed the server's keyed half-open connection for %s" % (a, ch.laddr))
             ctx.label("state=" + pool)
             if nt:
                 key = (a["cls"], a.get("ptype"), a.get("count"), tuple(tuple(x) for x in a.get("inner", ())), a["target"], pool,
